@@ -350,6 +350,62 @@ fn check_names(r: &mut Report) {
     }
 }
 
+/// two object types of one name (the same definition in two packages or API versions) with
+/// different members, read one after the other on one thread in both orders, bare and nested:
+/// what is declared is decided per type, not per name
+fn same_named(r: &mut Report) {
+    let i32s = Shape::Leaf(Leaf::I32);
+    let wide = Shape::Struct("Request", vec![("id", i32s.clone()), ("note", i32s.clone())]);
+    let narrow = Shape::Struct("Request", vec![("id", i32s.clone())]);
+    let wrap: Vec<(&str, fn(Shape) -> Shape, fn(Val) -> Val)> = vec![
+        ("bare", |s| s, |v| v),
+        ("list", |s| Shape::seq(s), |v| Val::Seq(vec![v.clone(), v])),
+        ("field", |s| Shape::Struct("Holder", vec![("inner", s), ("z", Shape::Leaf(Leaf::I32))]), |v| Val::Struct(vec![v, Val::I32(3)])),
+        ("map-value", |s| Shape::map(Leaf::Str, s), |v| Val::Map(vec![(Val::Str("k".into()), v)])),
+    ];
+    for (how, w, wval) in &wrap {
+        for wide_first in [true, false] {
+            let (ws, ns) = (w(wide.clone()), w(narrow.clone()));
+            let wv = wval(Val::Struct(vec![Val::I32(1), Val::I32(2)]));
+            let nv = strip_note(&ws, &wv);
+            let Some(doc) = render(&ws, &wv) else { continue };
+            r.states += 1;
+            let read_wide = |r: &mut Report| {
+                let results: Vec<(&'static str, Result<Val, String>)> = with_shape(&ws, || {
+                    let mut v = json_de_paths(&doc.json);
+                    v.extend(smile_de_paths(&doc.smile));
+                    v
+                });
+                for (path, got) in results {
+                    r.evaluations += 1;
+                    match got {
+                        Ok(v) if val_eq(&v, &wv) => r.outcome("same-name:declared-member-read"),
+                        other => r.violation(format!("C05|same-named-types|declared-member-lost|{}", how), format!("{}: {} read its own document {} as {:?}", ws.text(), path, String::from_utf8_lossy(&doc.json), other), json!({"shape": "", "injected": "same-named", "how": how, "wide_first": wide_first})),
+                    }
+                }
+            };
+            if wide_first {
+                read_wide(r);
+            }
+            judge(r, &ns, &nv, &["note"], "same-named", &doc, &format!("same-name:{}:{}", how, if wide_first { "after-the-wider-type" } else { "before-the-wider-type" }));
+            if !wide_first {
+                read_wide(r);
+            }
+        }
+    }
+}
+
+/// the value of the narrow twin: the same value without the `note` member
+fn strip_note(s: &Shape, v: &Val) -> Val {
+    match (s, v) {
+        (Shape::Struct("Request", _), Val::Struct(vals)) => Val::Struct(vals[..1].to_vec()),
+        (Shape::Struct(_, fs), Val::Struct(vals)) => Val::Struct(fs.iter().zip(vals).map(|(f, v)| strip_note(&f.1, v)).collect()),
+        (Shape::Seq(i), Val::Seq(vs)) => Val::Seq(vs.iter().map(|v| strip_note(i, v)).collect()),
+        (Shape::Map(_, i), Val::Map(kv)) => Val::Map(kv.iter().map(|(k, v)| (k.clone(), strip_note(i, v))).collect()),
+        (_, v) => v.clone(),
+    }
+}
+
 pub fn shape_space(args: &Args) -> Vec<Shape> {
     use crate::dynamic::CONJURE_LEAVES;
     // leaves reduced to the ones with distinct wrapper behaviour; keys to three kinds
@@ -421,6 +477,9 @@ pub fn run(args: &Args) -> Report {
         if v["case"]["injected"] == "name-dimension" {
             check_names(&mut report);
         }
+        if v["case"]["injected"] == "same-named" {
+            same_named(&mut report);
+        }
         report.exhaustive = false;
         return report;
     }
@@ -444,6 +503,7 @@ pub fn run(args: &Args) -> Report {
     report.merge(total);
     static_twins(&mut report);
     check_names(&mut report);
+    same_named(&mut report);
     report.extra.insert("shapes_with_objects".into(), json!(shapes.len()));
     report.bound("depth", args.tier.pick(3, 4));
     report.bound("positions", json!(["first", "between", "last"]));
